@@ -54,24 +54,24 @@ Print Assumptions C18_example.
    of them re-opens this property even if no sampled case shows a difference.  Rewritten by tools/pin_shapes.py on a tree on which every check passes. *)
 From Connectome Require BagGen OptGen GlueFilterGen GlueJoinGen.
 Theorem C18_mirrored_functions_are_the_pinned_ones :
-  BagGen.shape_connect_bags = "330bc8a991173b73" /\
-  BagGen.shape_normalize_bag = "7cd93bd3cd2ed163" /\
-  BagGen.shape_EdgesBag_freeze = "6e09dc87af0979b4" /\
-  BagGen.shape_EdgesBag_init = "19042133648c6d76" /\
-  OptGen.shape_detect_optionals = "baf33a5e717b4311" /\
-  OptGen.shape_ReversibleContainer_init = "ba8f9a40e072da46" /\
-  OptGen.shape_GraphCompiler_priv_validate_optionals = "1241e86a2e7f8c0d" /\
-  OptGen.shape_GraphCompiler_compile = "2efea2ce0a0eabd1" /\
-  OptGen.shape_GraphCompiler_priv_compile = "6acf060d491e1349" /\
-  GlueFilterGen.shape_class_Filter = "e202343ff78dfd1d" /\
-  GlueFilterGen.shape_class_CheckIds = "a921031238182021" /\
-  GlueJoinGen.shape_class_Join = "c2f4cf07b56e234c" /\
-  GlueJoinGen.shape_class_JoinContainer = "dc09c49ad7a5ba2d" /\
-  GlueJoinGen.shape_class_SwitchBranch = "202ea87a164ad799" /\
-  GlueJoinGen.shape_class_SwitchMissing = "09b9278b99ce6ff8" /\
-  GlueJoinGen.shape_priv_maybe_to_hash_id = "80d34b70d13b1b9d" /\
-  GlueJoinGen.shape_to_hash_id = "501cde71d807429e" /\
-  GlueJoinGen.shape_priv_chain_edges = "f009adada3e3a857".
+  BagGen.shape_connect_bags = "330bc8a991173b73"%string /\
+  BagGen.shape_normalize_bag = "7cd93bd3cd2ed163"%string /\
+  BagGen.shape_EdgesBag_freeze = "6e09dc87af0979b4"%string /\
+  BagGen.shape_EdgesBag_init = "19042133648c6d76"%string /\
+  OptGen.shape_detect_optionals = "baf33a5e717b4311"%string /\
+  OptGen.shape_ReversibleContainer_init = "ba8f9a40e072da46"%string /\
+  OptGen.shape_GraphCompiler_priv_validate_optionals = "1241e86a2e7f8c0d"%string /\
+  OptGen.shape_GraphCompiler_compile = "2efea2ce0a0eabd1"%string /\
+  OptGen.shape_GraphCompiler_priv_compile = "6acf060d491e1349"%string /\
+  GlueFilterGen.shape_class_Filter = "e202343ff78dfd1d"%string /\
+  GlueFilterGen.shape_class_CheckIds = "a921031238182021"%string /\
+  GlueJoinGen.shape_class_Join = "c2f4cf07b56e234c"%string /\
+  GlueJoinGen.shape_class_JoinContainer = "dc09c49ad7a5ba2d"%string /\
+  GlueJoinGen.shape_class_SwitchBranch = "202ea87a164ad799"%string /\
+  GlueJoinGen.shape_class_SwitchMissing = "09b9278b99ce6ff8"%string /\
+  GlueJoinGen.shape_priv_maybe_to_hash_id = "80d34b70d13b1b9d"%string /\
+  GlueJoinGen.shape_to_hash_id = "501cde71d807429e"%string /\
+  GlueJoinGen.shape_priv_chain_edges = "f009adada3e3a857"%string.
 Proof. repeat split; reflexivity. Qed.
 Print Assumptions C18_mirrored_functions_are_the_pinned_ones.
 (* END PINNED FINGERPRINTS *)
